@@ -161,19 +161,35 @@ Proof. exact cfgfn_abs_of. Qed.
 Print Assumptions C19_config_fn_components.
 
 (* ---- model_holds: licence for "implementation agrees with the model on this query => the oracle
-   holds on this query".  Scope (partial): get_project (both search modes) and init_project on an
-   existing project whose tree did not change; outcome a project or LookupError.  FULL statement
-   (not proved): the same for get_job queries and for init_project when the missing workspace
-   directory is re-created; for those the string-level theorems above (C19_get_job_innermost,
-   C19_init_project_no_mutating_step, C19_project_open_effect) are what is proved, and the oracle
-   is evaluated on every observation of every run in any case. *)
-Theorem C19_model_holds_partial : forall base tree q,
-  pre_q base tree q = true -> agree_q base tree q = true ->
-  outcome_in_vocabulary (q_kind q) (q_res q) ->
-  (q_kind q = QInit -> q_changed q = false) ->
+   holds on this query", under the oracle's precondition pre_q (layout hypothesis of the property,
+   validated per input).  The observed outcome must be in the property's vocabulary (a project / a
+   job / LookupError); any other exception makes holds_q false by itself and is reported by the
+   run-time evaluation of the oracle. *)
+Theorem C19_model_holds_get_project : forall base tree q s,
+  q_kind q = QProject s -> pre_q base tree q = true -> agree_q base tree q = true ->
+  outcome_in_vocabulary (q_kind q) (q_res q) -> holds_q base tree q = true.
+Proof. exact model_holds_get_project. Qed.
+Print Assumptions C19_model_holds_get_project.
+
+(* get_job, full strength: the job is the innermost id-like component, its project is the nearest
+   enclosing project of the job directory's parent, that parent IS <project>/workspace physically,
+   LookupError only when the path does not exist / has no id-like component / has no project *)
+Theorem C19_model_holds_get_job : forall base tree q,
+  q_kind q = QJob -> pre_q base tree q = true -> agree_q base tree q = true ->
+  job_vocabulary (q_res q) -> holds_q base tree q = true.
+Proof. exact model_holds_job. Qed.
+Print Assumptions C19_model_holds_get_job.
+
+(* init_project on an existing project.  FULL statement (not proved): the same without the
+   hypothesis q_changed q = false, i.e. also when Project() re-creates a missing workspace
+   directory (the oracle then compares the tree after with "tree before + empty workspace"; proved
+   instead at model level: C19_init_project_no_mutating_step, C19_project_open_effect). *)
+Theorem C19_model_holds_init_partial : forall base tree q,
+  q_kind q = QInit -> pre_q base tree q = true -> agree_q base tree q = true ->
+  outcome_in_vocabulary (q_kind q) (q_res q) -> q_changed q = false ->
   holds_q base tree q = true.
-Proof. exact model_holds_C19. Qed.
-Print Assumptions C19_model_holds_partial.
+Proof. exact model_holds_init. Qed.
+Print Assumptions C19_model_holds_init_partial.
 
 (* ---- non-vacuity: a concrete tree satisfying the hypotheses -------------------------------
    /p is a project, /p/workspace/<id>/inner is a project nested in a job directory with its own
